@@ -306,3 +306,141 @@ Theorem C17_source_rounded_box_ratio n R g k :
          (rounded_box_ratio (GR.bbw g) (GR.bbh g) R (GR.g_bt g, GR.g_br g, GR.g_bb g, GR.g_bl g) k)) (fun _ => False).
 Proof. exact (GR.gen_rounded_box_ratio_linked n R g k). Qed.
 Print Assumptions C17_source_rounded_box_ratio.
+
+(* ---- StackingContext.__init__ as REGENERATED from weasyprint/stacking.py on every run (gen/GenStacking.v,
+   interpreter base/Py.v; `self.x.append(c)` printed as `self.x = self.x + [c]`, `self.x.sort(key=lambda c:
+   c.z_index)` as the stable-sort primitive PSortedByAttr): for every box (its style's z-index an integer or auto,
+   any position, flex / grid item or not), every list of child contexts (objects whose z_index is the model's
+   ctx_z, whatever else they carry) and whatever blocks / floats / blocks_and_cells / page are, the constructor
+   returns nothing, raises nothing and leaves in `self` the components of the model's mk_ctx: the buckets
+   negative_z_contexts / zero_z_contexts / positive_z_contexts (layers 3, 8, 9 of CSS 2.1 Appendix E: sorted by
+   z-index, ties in tree order) and z_index = zctx (0 when auto or when z-index does not apply).  So the paint-order
+   theorems above, which rest on mk_ctx, are about the source *)
+Require WV.gen.GenStacking WV.proofs.C17_gen_stacking.
+Module GS := WV.proofs.C17_gen_stacking.
+
+Theorem C17_source_stacking_init_builds_mk_ctx (cextra : pnode -> list (string * Py.val))
+        (i : info) es eb kids (children blocks floats bcs : list pnode) (Pg bl fl bc : Py.val) :
+  Py.run Py.real_ops GenStacking.stacking_init_body
+      [("self"%string, Py.VObj []); ("box"%string, GS.vbox i es eb);
+       ("child_contexts"%string, Py.VList (map (GS.vctx pnode ctx_z cextra) children));
+       ("blocks"%string, bl); ("floats"%string, fl); ("blocks_and_cells"%string, bc); ("page"%string, Pg)]
+      (fun rho r =>
+         r = None /\
+         Py.lookup "self" rho =
+           GS.ctx_fields (mk_ctx i kids children blocks floats bcs) (GS.vctx pnode ctx_z cextra)
+                         (GS.vbox i es eb) Pg bl fl bc)
+      (fun _ => False).
+Proof. exact (GS.gen_stacking_init_is_mk_ctx Py.real_ops Py.real_ok cextra i es eb kids children blocks floats bcs Pg bl fl bc). Qed.
+Print Assumptions C17_source_stacking_init_builds_mk_ctx.
+
+(* the same, spelled out: the three buckets are the children with z < 0 sorted (stably) by z, the children with
+   z = 0 in tree order, the other children sorted by z; for any type of child contexts *)
+Theorem C17_source_stacking_init_buckets (C : Type) (cz : C -> Z) (cextra : C -> list (string * Py.val))
+        (i : info) es eb (children : list C) (Pg bl fl bc : Py.val) :
+  Py.run Py.real_ops GenStacking.stacking_init_body
+      [("self"%string, Py.VObj []); ("box"%string, GS.vbox i es eb);
+       ("child_contexts"%string, Py.VList (map (GS.vctx C cz cextra) children));
+       ("blocks"%string, bl); ("floats"%string, fl); ("blocks_and_cells"%string, bc); ("page"%string, Pg)]
+      (fun rho r =>
+         r = None /\
+         Py.lookup "self" rho =
+           Py.VObj [("box"%string, GS.vbox i es eb); ("page"%string, Pg); ("block_level_boxes"%string, bl);
+                    ("float_contexts"%string, fl);
+                    ("negative_z_contexts"%string,
+                     Py.VList (map (GS.vctx C cz cextra) (sort_z cz (filter (fun c => cz c <? 0) children))));
+                    ("zero_z_contexts"%string,
+                     Py.VList (map (GS.vctx C cz cextra) (filter (fun c => cz c =? 0) children)));
+                    ("positive_z_contexts"%string,
+                     Py.VList (map (GS.vctx C cz cextra)
+                                   (sort_z cz (filter (fun c => negb (cz c <? 0) && negb (cz c =? 0)) children))));
+                    ("blocks_and_cells"%string, bc);
+                    ("z_index"%string,
+                     Py.VNum (inject_Z (if negb (static i) || fit i || git i
+                                        then match zi i with Some z => z | None => 0 end else 0)))])
+      (fun _ => False).
+Proof. exact (GS.gen_stacking_init C cz cextra Py.real_ops Py.real_ok i es eb children Pg bl fl bc). Qed.
+Print Assumptions C17_source_stacking_init_buckets.
+
+(* z-index only where it applies: a static box that is neither a flex nor a grid item (it has a context of its own
+   because of opacity / transform / overflow, or is a float / inline-block) gets z_index 0 whatever its style says,
+   so that its parent puts it in the zero layer (tree order) *)
+Theorem C17_source_z_index_ignored_where_it_does_not_apply (cextra : pnode -> list (string * Py.val))
+        (i : info) es eb (children : list pnode) (Pg bl fl bc : Py.val) :
+  static i = true -> fit i = false -> git i = false ->
+  Py.run Py.real_ops GenStacking.stacking_init_body
+      [("self"%string, Py.VObj []); ("box"%string, GS.vbox i es eb);
+       ("child_contexts"%string, Py.VList (map (GS.vctx pnode ctx_z cextra) children));
+       ("blocks"%string, bl); ("floats"%string, fl); ("blocks_and_cells"%string, bc); ("page"%string, Pg)]
+      (fun rho r => exists f, Py.lookup "self" rho = Py.VObj f /\ Py.lookup "z_index" f = Py.VNum (inject_Z 0))
+      (fun _ => False).
+Proof. exact (GS.gen_stacking_init_static_is_zero Py.real_ops Py.real_ok cextra i es eb children Pg bl fl bc). Qed.
+Print Assumptions C17_source_z_index_ignored_where_it_does_not_apply.
+
+(* ---- the decisions of _dispatch as REGENERATED from weasyprint/stacking.py on every run (gen/GenStacking.v,
+   stacking_dispatch_body).  GD.dcase_of is the case analysis of the model's dispatch (first theorem); the second
+   theorem runs the regenerated body: for every box (a placeholder or not; any position, z-index, opacity number,
+   transform list, overflow keyword, float, class) it ends in the statement the model's case names, with
+   len(child_contexts) / len(blocks) / len(blocks_and_cells) taken before the children are dispatched.  The
+   statements outside the translated subset (the calls of StackingContext.from_box / _dispatch_children and the
+   list.insert calls) are printed as calls of "%unsupported" carrying their text, which answer that text here
+   (GD.doracle: also isinstance by the model's class tables and box.is_floated() by the model's flt), so the last
+   one executed is read in the final environment *)
+Require WV.proofs.C17_gen_dispatch.
+Module GD := WV.proofs.C17_gen_dispatch.
+
+Theorem C17_dispatch_is_this_case_analysis i kids st :
+  dispatch (Box i kids) st =
+  let dch (st : dst) : list pnode * dst :=
+        if is_parent (knd i) then dispatch_list kids st else (map embed kids, st) in
+  match GD.dcase_of i with
+  | GD.DOwn =>
+      let '(nk, s) := dch st0 in
+      (None, mkS (s_cc st ++ [mk_ctx i nk (s_cc s) (s_bl s) (s_fl s) (s_bc s)]) (s_bl st) (s_fl st) (s_bc st))
+  | GD.DFake =>
+      let '(nk, s) := dch (mkS (s_cc st) [] [] []) in
+      (None, mkS (insert_at (List.length (s_cc st)) (mk_ctx i nk [] (s_bl s) (s_fl s) (s_bc s)) (s_cc s))
+                 (s_bl st) (s_fl st) (s_bc st))
+  | GD.DFloat =>
+      let '(nk, s) := dch (mkS (s_cc st) [] [] []) in
+      (None, mkS (s_cc s) (s_bl st) (s_fl st ++ [mk_ctx i nk [] (s_bl s) (s_fl s) (s_bc s)]) (s_bc st))
+  | GD.DInline =>
+      let '(nk, s) := dch (mkS (s_cc st) [] [] []) in
+      (Some (mk_ctx i nk [] (s_bl s) (s_fl s) (s_bc s)), mkS (s_cc s) (s_bl st) (s_fl st) (s_bc st))
+  | GD.DNormal b c =>
+      let '(nk, s) := dch st in
+      let nb := PB i nk in
+      (Some nb,
+       mkS (s_cc s) (if b then insert_at (List.length (s_bl st)) nb (s_bl s) else s_bl s) (s_fl s)
+           (if c then insert_at (List.length (s_bc st)) nb (s_bc s) else s_bc s))
+  end.
+Proof. exact (GD.dispatch_by_case i kids st). Qed.
+Print Assumptions C17_dispatch_is_this_case_analysis.
+
+Theorem C17_source_dispatch_decides (ph : bool) (i : info) (op : Q) (tl : list Py.val) (ov : string)
+        es eb eph (pg : Py.val) (ccl bll fll bcl : list Py.val) :
+  opa i = negb (Qle_bool 1 op) ->                                  (* style['opacity'] < 1 *)
+  trf i = match tl with [] => false | _ => true end ->             (* style['transform'] is not empty *)
+  ovf i = negb (String.eqb ov "visible") ->                        (* style['overflow'] != 'visible' *)
+  Py.run (Py.with_calls Py.real_ops (GD.doracle ph i)) GenStacking.stacking_dispatch_body
+      [("box"%string, GD.dparam ph (GD.dbox i op tl ov es eb) eph); ("page"%string, pg);
+       ("child_contexts"%string, Py.VList ccl); ("blocks"%string, Py.VList bll); ("floats"%string, Py.VList fll);
+       ("blocks_and_cells"%string, Py.VList bcl); ("boxes"%string, GD.vboxes);
+       ("AbsolutePlaceholder"%string, Py.VStr "AbsolutePlaceholder")]
+      (fun rho r =>
+         match GD.dcase_of i with
+         | GD.DOwn => Py.lookup "%unsupported" rho = Py.VStr GD.tag_own /\ r = Some Py.VNone
+         | GD.DFake => Py.lookup "%unsupported" rho = Py.VStr GD.tag_fake_insert /\
+                       Py.lookup "index" rho = Py.vint (Z.of_nat (List.length ccl)) /\ r = None
+         | GD.DFloat => Py.lookup "%unsupported" rho = Py.VStr GD.tag_float /\ r = None
+         | GD.DInline => Py.lookup "%unsupported" rho = Py.VStr GD.tag_inline /\ r = None
+         | GD.DNormal b c =>
+             Py.lookup "blocks_index" rho = (if b then Py.vint (Z.of_nat (List.length bll)) else Py.VNone) /\
+             Py.lookup "blocks_and_cells_index" rho = (if c then Py.vint (Z.of_nat (List.length bcl)) else Py.VNone) /\
+             Py.lookup "%unsupported" rho =
+               Py.VStr (if c then GD.tag_bc_insert else if b then GD.tag_blocks_insert else GD.tag_children) /\
+             r = Some (GD.dbox i op tl ov es eb)
+         end)
+      (fun _ => False).
+Proof. exact (GD.gen_dispatch_decides Py.real_ops Py.real_ok ph i op tl ov es eb eph pg ccl bll fll bcl). Qed.
+Print Assumptions C17_source_dispatch_decides.
